@@ -215,6 +215,9 @@ def generated(ctx):
                 continue    # complex decompositions introduced by sympy (Abs of a symbolic power) are not real-valued expressions of bartiq
             if any(a.is_Float and a != 0 and not (1e-200 < abs(a) < 1e200) for a in sympy.preorder_traversal(e)):
                 continue    # floats beyond the double range cannot be compared
+            if any(isinstance(a, (sympy.Mod, sympy.floor, sympy.ceiling, sympy.frac)) and a.has(sympy.Float) for a in sympy.preorder_traversal(e)):
+                continue    # a float (printed with 15 digits) under a discontinuous function: the printed and the binary value can
+                #             sit on different sides of a jump (3.0000000000000031 is printed 3.0); literal precision is checked alone
             ctx.stats["evaluations"] += 1
             v, d, s = roundtrip(e, rng)
         except _Slow:
